@@ -113,6 +113,27 @@ Theorem C12_reload_requests_failed_cores :
     = requested (flatten_targets ts) x y p && negb (state x y p =? app_state_wait).
 Proof. exact reload_requests_failed_cores. Qed.
 
+(* The core mask read as its 18 documented bits (as C09's wire-level model reads it) and as everything below the
+   command byte are the same pair on every packet sent, so C12_flood_fill_packets_exact holds for either reading. *)
+Theorem C12_flood_fill_packets_mask18 :
+  forall cs pk, ffcs_packets cs = Ok pk -> map packet_pair18 pk = map packet_pair pk.
+Proof. exact flood_fill_packets_mask18. Qed.
+
+(* No empty region word is sent: every emitted word selects at least one sub-block (and, by
+   C12_compress_strictly_sorted, every core mask at least one core). *)
+Theorem C12_compress_no_empty_region :
+  forall cs out, compress cs = Ok out -> Forall (fun rc => word_blocks (fst rc) <> 0) out.
+Proof. exact compress_no_empty_region. Qed.
+
+(* A block that is full for some cores only, the case the property singles out: the 4x4 block at (8, 4), all 16
+   chips asking for core 1 and 15 of them for core 2.  Core 1 collapses into one bit of the parent (a level-2
+   word with one sub-block bit), core 2 stays a level-3 word with 15 bits. *)
+Example C12_block_full_for_one_core_only :
+  Forall in_space ex_partly_full /\ length ex_partly_full = 31%nat /\
+  compress ex_partly_full = Ok [(131136, 2); (134709247, 4)] /\
+  word_level 131136 = 2 /\ word_blocks 131136 = 64 /\ word_level 134709247 = 3 /\ word_blocks 134709247 = 32767.
+Proof. exact ex_partly_full_ok. Qed.
+
 Example C12_tree_session_instance :
   Forall in_space (adds_of ex_ops) /\
   tree_session 3 ex_ops = Ok [[]; [(196609, 2)]; [(196609, 2)]; [(196609, 2); (4390913, 8)]].
